@@ -119,6 +119,36 @@ pub fn build_merger<'a>(files: &'a [Vec<u8>], mf: MF, add_style: u8) -> Check<gr
     for f in files {
         cursors.push(rd::cursor(f)?);
     }
+    // sources with a past (add_style / 4: 0 = fresh cursors; 1 = every second, 2 = every cursor was moved around and
+    // then `reset()`, which C03 defines as equivalent to a never-positioned cursor; cursors that are still positioned
+    // or exhausted when added are NOT generated: no property says what a merger does with them)
+    let past = (add_style / 4) % 3;
+    if past != 0 {
+        for (i, c) in cursors.iter_mut().enumerate() {
+            if past == 2 || i % 2 == 1 {
+                let r = catch(|| {
+                    let _ = c.move_on_last();
+                    let _ = c.move_on_prev();
+                    match i % 3 {
+                        0 => {
+                            let _ = c.move_on_key_greater_than_or_equal_to([0xffu8; 600]);
+                        }
+                        1 => {
+                            let _ = c.move_on_first();
+                            while let Ok(Some(_)) = c.move_on_next() {}
+                        }
+                        _ => {
+                            let _ = c.move_on_key_lower_than_or_equal_to(b"");
+                        }
+                    }
+                    c.reset();
+                });
+                if let Err(p) = r {
+                    return Err(Fail::new(format!("c06:{}", panic_sig(&p)), format!("moving a source cursor around before reset panicked: {p}")));
+                }
+            }
+        }
+    }
     let mut b = grenad::Merger::builder(mf);
     match add_style % 4 {
         0 => {
@@ -162,7 +192,7 @@ impl Prop for C06 {
             2 => gen::counter_src(300),
         ];
         let source = (0u8..4, vec(any::<u8>(), 1..40), gen::wconf_light()).prop_map(|(density, mask, conf)| SourceSpec { density, mask, conf });
-        let s = (universe, vec(source, 0..=8), prop::sample::select(&MergeKind::ALL[..]), 0u8..4, gen::wconf_light())
+        let s = (universe, vec(source, 0..=8), prop::sample::select(&MergeKind::ALL[..]), 0u8..12, gen::wconf_light())
             .prop_map(|(universe, sources, kind, add_style, out_conf)| Case { universe, sources, kind, add_style, out_conf });
         let many = (
             prop_oneof![2 => 257u32..400, 3 => 65_537u32..65_700, 1 => 2u32..64],
